@@ -165,3 +165,7 @@ Proof.
   split; intros r Hr sc Hsc; simpl in Hr; destruct Hr as [<-|[<-|[]]]; simpl in Hsc;
     destruct Hsc as [<-|[<-|[]]]; simpl; try lia; auto.
 Qed.
+
+(** C18_vf2_count: the reference enumerator finds the same two self-maps *)
+Example ex_vf2_count : length (auts g1) = 2 /\ length (auts g3) = 1.
+Proof. vm_compute. auto. Qed.
